@@ -17,6 +17,14 @@ CLAIMED = {
    "Runtime monitoring of SerializedValueSlice::convert, SerializedValue::convert and MessageOps::convert_value (all 14 payload-carrying kinds) over reference encodings (both epochs, mixed, non-minimal) and malformed inputs for version pairs in and around 1.14..1.20; oracle = reference skipper (well-formedness), reference kind scanner (no 1.20 container kind left), reference and real decode (same meaning), byte-identity for same/newer epoch, idempotence. Held on the inputs observed.",
    "Trusts the harness reference codec; conversion of ill-formed input that succeeds is recorded, not judged (the statement does not constrain it).",
    "runtime differential + metamorphic oracle (idempotence, identity)", "DESIGN.md §3 C13"),
+ "C08": ("codec-lab", "exploration",
+   "Runtime monitoring of MessageOps::serialize_message / deserialize_message on messages of all 63 kinds produced by upstream's own Arbitrary derive (coverage-gated on kinds and enum alternatives), with a valid-frame oracle (prefix, kind byte, equality, payload identity) and metamorphic strictness oracles (all truncations, appended bytes, wrong prefixes, unknown kinds, per-byte sweeps, random mutants: no panic, accepted frames have a matching prefix and re-serialize to an equal message). Held on the messages and mutants observed.",
+   "No second message parser: strictness is decided by metamorphic relations; a field-level leniency that maps a mutant to the same message as another frame is only visible through the re-serialization relation.",
+   "runtime round-trip + metamorphic strictness oracle, panic monitor", "DESIGN.md §3 C08"),
+ "C14": ("codec-lab", "exploration",
+   "Runtime monitoring of Packetizer (both input interfaces, random chunkings down to single bytes, frames 5 B..5 MiB, eager/lazy/late draining) against a shadow byte counter, of two real TokioTransports over a scripted AsyncRead+AsyncWrite (short reads/writes, Pending, Ok(0), errors) and of Buffered<T> over a scripted inner transport: order, exactly-once, completeness at flush, back-pressure boundary, EOF and zero-write errors. Held on the schedules observed.",
+   "Scripted I/O replaces the OS; Pending is followed by a spurious re-poll; ASan/Miri slices of this workload are part of the thorough tier when those tools start.",
+   "runtime shadow-state oracle over scripted I/O schedules, panic monitor", "DESIGN.md §3 C14"),
 }
 
 def main():
